@@ -6,6 +6,13 @@ import Sm9.Model.Prog
 A program is a list of steps; every step appends one register.  The model runs the
 value-level model, the spec tracks integers mod p (field programs) or the discrete
 logarithm of each register (group programs).
+
+Field programs: the model side is a thin parser (`parseFInstr`: text → `Sm9.FInstr`) in front of
+the value-level machine of `Sm9/Model/Prog.lean` (`FrProg.fstepV` / `FqProg.fstepV`, run by
+`frun`); `Sm9/Proofs/FieldProgram.lean` relates that machine to the limb-level machine for every
+program (C07).  The spec side (`natM`) interprets the text directly over naturals mod p
+(`fieldStep`).  Instructions that do not exist for a field (`hash random setbit` for Fq, `sqrt`
+for Fr) and `const` literals beyond 64 bytes stop the model machine (as they stop the harness).
 -/
 namespace Sm9.Driver
 open Sm9
@@ -30,14 +37,8 @@ structure FieldOpsM (α : Type) where
   sqrt : α → Option α
   p : Nat
 
-def frM : FieldOpsM Fr :=
-  { ofNat := Fr.ofNat, val := Fr.val, add := (· + ·), sub := (· - ·), mul := (· * ·), neg := (- ·),
-    inv := Fr.inverse, pow := Fr.pow, sqrt := fun _ => none, p := r }
-def fqM : FieldOpsM Fq :=
-  { ofNat := Fq.ofNat, val := Fq.val, add := (· + ·), sub := (· - ·), mul := (· * ·), neg := (- ·),
-    inv := Fq.inverse, pow := Fq.pow, sqrt := Fq.sqrt, p := q }
 /-- the spec: plain naturals mod p -/
-def natM (p : Nat) : FieldOpsM Nat :=
+def natOps (p : Nat) : FieldOpsM Nat :=
   { ofNat := (· % p), val := id, add := fun a b => (a + b) % p, sub := Spec.subm p,
     mul := fun a b => a * b % p, neg := Spec.negm p,
     inv := fun a => if a % p == 0 then none else some (Spec.invm p a),
@@ -46,7 +47,7 @@ def natM (p : Nat) : FieldOpsM Nat :=
 def decStr (cs : List Char) : Option Nat :=
   if cs.all Char.isDigit then some (cs.foldl (fun acc c => acc * 10 + (c.toNat - 48)) 0) else none
 
-/-- one step of a field program; failed constructors / `None` results leave zero -/
+/-- one step of a field program on the spec side (`natM`); failed constructors / `None` results leave zero -/
 def fieldStep {α} (M : FieldOpsM α) (isFr : Bool) (regs : Array α) (step : String) : Option (Array α) :=
   let (k, as) := splitArgs step
   let reg (s : String) : Option α := s.toNat?.bind (fun i => regs[i]?)
@@ -80,9 +81,55 @@ def fieldStep {α} (M : FieldOpsM α) (isFr : Bool) (regs : Array α) (step : St
       pure (regs.push (M.ofNat (U256.set_bit (M.val x) b (v == "1")).1))
   | _, _ => none
 
-def runFieldProg {α} (M : FieldOpsM α) (isFr : Bool) (steps : List String) : Option String := do
-  let regs ← steps.foldlM (fieldStep M isFr) #[]
-  pure (",".intercalate (regs.toList.map fun x => hexFixed 32 (M.val x)) ++ "|LAWS-OK")
+/-- text of one step → instruction of the model's field machine (`Sm9.FInstr`, Model/Prog.lean) -/
+def parseFInstr (step : String) : Option FInstr :=
+  let (k, as) := splitArgs step
+  match k, as with
+  | "const", [h] => do pure (.const (← parseHexNat h))
+  | "slice", [h] => do pure (.slice (← parseBytes h))
+  | "str", [h] => do
+      let bs ← parseBytes h
+      let cs ← (String.fromUTF8? ⟨bs.toArray⟩).map String.toList
+      pure (.str cs)
+  | "hash", [h] => do pure (.hash (← parseBytes h))
+  | "random", ws => do pure (.random (← ws.mapM parseHexNat))
+  | "add", [i, j] => do pure (.add (← i.toNat?) (← j.toNat?))
+  | "sub", [i, j] => do pure (.sub (← i.toNat?) (← j.toNat?))
+  | "mul", [i, j] => do pure (.mul (← i.toNat?) (← j.toNat?))
+  | "pow", [i, j] => do pure (.pow (← i.toNat?) (← j.toNat?))
+  | "neg", [i] => do pure (.neg (← i.toNat?))
+  | "dup", [i] => do pure (.dup (← i.toNat?))
+  | "inv", [i] => do pure (.inv (← i.toNat?))
+  | "sqrt", [i] => do pure (.sqrt (← i.toNat?))
+  | "setbit", [i, b, v] => do pure (.setbit (← i.toNat?) (← b.toNat?) (v == "1"))
+  | _, _ => none
+
+/-- a thin parser in front of the model's value-level `fstep` (`FrProg.fstepV`, `FqProg.fstepV`) -/
+def fieldStepFr (regs : List Fr) (step : String) : Option (List Fr) := do
+  let ins ← parseFInstr step
+  FrProg.fstepV regs ins
+def fieldStepFq (regs : List Fq) (step : String) : Option (List Fq) := do
+  let ins ← parseFInstr step
+  FqProg.fstepV regs ins
+
+/-- a machine for field programs: the final register file of a program text, and how a register is printed -/
+structure FieldMachine (α : Type) where
+  val : α → Nat
+  run : Bool → List String → Option (List α)
+
+/-- the model: parse, then run the model's value-level machine (`frun`: `fstep` from the empty
+    register file; the fold of `fieldStepFr` / `fieldStepFq`) -/
+def frM : FieldMachine Fr :=
+  { val := Fr.val, run := fun _ steps => do let prog ← steps.mapM parseFInstr; FrProg.frunV prog }
+def fqM : FieldMachine Fq :=
+  { val := Fq.val, run := fun _ steps => do let prog ← steps.mapM parseFInstr; FqProg.frunV prog }
+/-- the spec: plain naturals mod p, interpreted directly from the text by `fieldStep` -/
+def natM (p : Nat) : FieldMachine Nat :=
+  { val := id, run := fun isFr steps => (steps.foldlM (fieldStep (natOps p) isFr) #[]).map Array.toList }
+
+def runFieldProg {α} (M : FieldMachine α) (isFr : Bool) (steps : List String) : Option String := do
+  let regs ← M.run isFr steps
+  pure (",".intercalate (regs.map fun x => hexFixed 32 (M.val x)) ++ "|LAWS-OK")
 
 /-! ## group programs -/
 
